@@ -926,7 +926,7 @@ fn c04_table() -> LogicalTable {
                 "nk",
                 opt_ints(&[Some(5), None, Some(5), Some(6), None, Some(7), Some(6), None, Some(5), Some(7), None, Some(5)]),
             ),
-            ("s", strs(&["a", "b", "a", "c", "b", "a", "c", "c", "a", "b", "b", "a"])),
+            ("s", strs(&["a", "b", "b", "c", "a", "a", "c", "b", "a", "c", "b", "a"])),
             (
                 "ns",
                 opt_strs(&[Some("x"), None, Some("y"), Some("x"), None, Some("y"), None, Some("x"), Some("y"), None, Some("x"), Some("y")]),
@@ -1027,12 +1027,30 @@ pub fn c04_suite(tier: Tier) -> Suite {
         keylists.push(vec![col("k"), col("ns"), col("fk")]);
         keylists.push(vec![col("s"), col("nk"), col("wk")]);
     }
+    // every ordered triple of the keys that have a value in every row (both tiers): the merge of
+    // three-key groups across partitions
+    let solid = [col("k"), col("s"), col("fk"), col("wk")];
+    for a in 0..4 {
+        for b in 0..4 {
+            for c in 0..4 {
+                if a != b && b != c && a != c {
+                    let kl = vec![solid[a].clone(), solid[b].clone(), solid[c].clone()];
+                    if !keylists.contains(&kl) {
+                        keylists.push(kl);
+                    }
+                }
+            }
+        }
+    }
     let mut n = 0usize;
     for kl in &keylists {
         for (ai, aset) in aggsets.iter().enumerate() {
             for (fi, f) in filters.iter().enumerate() {
                 // quick: one-key lists get the full product, two-key lists a rotating subset
-                if tier == Tier::Quick && kl.len() >= 2 && (ai + fi + n) % 4 != 0 {
+                if tier == Tier::Quick && kl.len() == 2 && (ai + fi + n) % 4 != 0 {
+                    continue;
+                }
+                if tier == Tier::Quick && kl.len() >= 3 && !((ai == 1 || ai == 2) && fi <= 1) {
                     continue;
                 }
                 for li in 0..nl {
